@@ -28,7 +28,7 @@ def gates(tier):
     return {'full_grader_calls': 8000, 'orders_checked': 6000, 'multi_match_inputs': 600, 'zero_credit_message_cases': 100,
             'wrong_msg_applicable': 300, 'wrong_msg_not_applicable': 600, 'list_entry_checks': 300,
             'class:StringGrader': 200, 'class:NumericalGrader': 150, 'class:FormulaGrader': 150,
-            'class:MatrixGrader': 100, 'class:SingleListGrader': 100}
+            'class:MatrixGrader': 100, 'class:SingleListGrader': 100, 'author_comparer_calls': 1500}
 
 
 def specs(rng):
@@ -47,7 +47,7 @@ def specs(rng):
     if kind == 'Matrix':
         return ('MatrixGrader', {}, ['[1,2]', '[1,2]+[0,0]', '[2,4]/2', '[1,3]', '[0,0]', '2*[0.5,1]'],
                 ['[1,2]', '[2,4]/2', '[1,3]', '[0,0]', '[5,5]', '[1,2]*1'])
-    return ('SingleListGrader', {'ordered': rng.random() < 0.5},
+    return ('SingleListGrader', {'ordered': rng.random() < 0.5, 'partial_credit': rng.random() < 0.6},
             [['a', 'b'], ['b', 'a'], ['a', 'c'], ['c', 'd'], ['a', 'a']], ['a,b', 'b,a', 'a,c', 'c,d', 'a', 'x,y', 'a,b,c'])
 
 
@@ -102,6 +102,16 @@ def run_item(ctx):
             orders = [tuple(range(k)), tuple(reversed(range(k)))] + rng.sample(orders, 22)
         fulls = [(o, build(cls_name, base, [alts[j] for j in o], wrong_msg)) for o in orders]
         ctx.count('class:' + cls_name)
+        # self-match law: submitting an alternative's own expect value earns at least that alternative's credit
+        for a in split_singles(alts):
+            own = ','.join(a['expect']) if isinstance(a['expect'], list) else a['expect']
+            out = lib.call(ctx, fulls[0][1], None, own)
+            ctx.ev()
+            ctx.count('self_match_checks')
+            if out.returned and out.value['grade_decimal'] < a['grade_decimal'] - 1e-12:
+                ctx.violation('C08:%s:own_expect_earns_less_than_its_credit' % cls_name,
+                              'input %r equals an alternative worth %r but earned %r' % (own, a['grade_decimal'], out.value['grade_decimal']),
+                              {'grader': cls_name, 'config': base, 'alternatives': alts, 'input': own})
         for inp in rng.sample(inputs, min(len(inputs), ctx.pick(3, 6))):
             souts = [lib.call(ctx, g, None, inp) for g in singles]
             ctx.ev(len(souts))
@@ -203,6 +213,50 @@ def run_lists(ctx):
         ctx.nontrivial(wit)
 
 
+def run_author_comparer(ctx):
+    """Alternatives whose comparer is an author function that returns a (reused) dictionary for partial credit."""
+    import mitxgraders as M
+    rng = ctx.rng
+    for i in range(ctx.n(320, 4000)):
+        half = {'grade_decimal': 0.5, 'msg': 'half right'}
+
+        def comp(params, student, utils, half=half):
+            if utils.within_tolerance(params[0], student):
+                return True
+            if utils.within_tolerance(2 * params[0], student):
+                return half          # the same dictionary object every time
+            return False
+        cls = rng.choice([M.FormulaGrader, M.NumericalGrader, M.MatrixGrader])
+        numeric = cls is M.NumericalGrader
+        base = '3' if numeric else 'x^2+1'
+        c1, c2 = rng.choice([0.6, 0.8, 1]), rng.choice([0.4, 0.9])
+        alts = [{'expect': {'comparer': comp, 'comparer_params': [base]}, 'grade_decimal': c1, 'msg': 'A'},
+                {'expect': {'comparer': comp, 'comparer_params': ['5*(%s)' % base]}, 'grade_decimal': c2, 'msg': 'B'}]
+        if rng.random() < 0.5:
+            alts.reverse()
+        kw = {} if numeric else {'variables': ['x'], 'samples': rng.choice([1, 3, 5])}
+        g = cls(answers=tuple(alts), **kw)
+        table = {base: c1, '2*(%s)' % base: 0.5 * c1, '5*(%s)' % base: c2, '10*(%s)' % base: 0.5 * c2, '7*(%s)' % base: 0}
+        for rep in range(3):
+            for inp, want in rng.sample(sorted(table.items()), 3):
+                out = lib.call(ctx, g, None, inp)
+                ctx.ev()
+                ctx.count('full_grader_calls')
+                ctx.count('author_comparer_calls')
+                wit = {'grader': cls.__name__, 'alternatives': [(a['expect']['comparer_params'], a['grade_decimal']) for a in alts],
+                       'input': inp, 'call_number': rep, 'outcome': out.brief()}
+                ctx.nontrivial(['author_comparer', cls.__name__, inp, c1, c2, rep])
+                if not out.returned:
+                    ctx.violation('C08:author_comparer:raises', repr(out.exc), wit)
+                elif abs(out.value['grade_decimal'] - want) > 1e-12:
+                    ctx.violation('C08:author_comparer:grade', 'grade %r, the best alternative earns %r (comparer credit x answer credit)'
+                                  % (out.value['grade_decimal'], want), wit)
+        if half != {'grade_decimal': 0.5, 'msg': 'half right'}:
+            ctx.violation('C08:author_comparer:return_value_modified', 'the dictionary returned by the author comparer was altered: %r' % (half,),
+                          {'grader': cls.__name__})
+
+
 def run(ctx):
     run_item(ctx)
     run_lists(ctx)
+    run_author_comparer(ctx)
